@@ -123,10 +123,10 @@ def build_gecs(features=(), release=False, hooks=True):
         raise ToolError("libgecs.rlib not produced")
     return rlib, os.path.join(tgt, prof, "deps")
 
-def build_harness(features=(), release=False):
+def build_harness(features=(), release=False, shape="a"):
     """rustc the harness against the freshly built gecs; returns the binary path."""
     rlib, deps = build_gecs(features, release)
-    name = cfg_name(features, release)
+    name = cfg_name(features, release) + ("" if shape == "a" else "-shape" + shape)
     hsrc = tree_files(HARNESS, ["."], {".rs"})
     h = hashlib.sha256()
     _hash_files(hsrc + [rlib], h)
@@ -140,6 +140,8 @@ def build_harness(features=(), release=False):
            os.path.join(HARNESS, "main.rs"), "-o", binp]
     for f in features:
         cmd += ["--cfg", 'feature="%s"' % f]
+    if shape != "a":
+        cmd += ["--cfg", "vw_shape_" + shape]
     if release:
         cmd += ["-C", "opt-level=2"]
     else:
